@@ -22,3 +22,20 @@ Theorem C15_publication_hb : forall (event : Type) po rf ord_of unlock_lock a b,
   path event po rf ord_of unlock_lock a b -> hb event po rf ord_of unlock_lock a b.
 Proof. exact path_hb. Qed.
 Print Assumptions C15_publication_hb.
+
+(* ---- the exemption "UnderTreeWriteLock" is what it says ----
+   Over the tables regenerated from node.rs (Gen/GenLocks.v): every Relaxed store of node.rs lies,
+   in a function that takes the tree-bin write lock, between its lock_root() and its unlock_root();
+   in any other function it belongs to a restructuring helper or to TreeBin::new (which builds a
+   tree nobody else can see); the helpers are only called from inside such an extent, from each
+   other, or from TreeBin::new; and each locker has exactly one lock_root() before one
+   unlock_root(). *)
+From Flurry Require Import Model.Locks Proofs.LocksProofs.
+Theorem C15_tree_links_written_under_write_lock :
+  relaxed_stores_inside_write_lock = true /\ relaxed_stores_only_in_known_functions = true /\
+  helpers_called_under_write_lock = true /\ lockers_well_bracketed = true /\ lockers_exist = true.
+Proof.
+  exact (conj relaxed_stores_inside_write_lock_true (conj relaxed_stores_only_in_known_functions_true
+        (conj helpers_called_under_write_lock_true (conj lockers_well_bracketed_true lockers_exist_true)))).
+Qed.
+Print Assumptions C15_tree_links_written_under_write_lock.
